@@ -34,7 +34,15 @@ pub fn resolve(
 		{
 			Expression::Builtin(GeneratorBuiltin::Format { arguments })
 		}
-		Builtin::File => file(location),
+		Builtin::File =>
+		{
+			// As a value, the file name is a string slice (the type that
+			// the typer gave to this call), not an array of bytes.
+			Expression::Autocoerce {
+				expression: Box::new(file(location)),
+				coerced_type: ValueType::for_string_slice(),
+			}
+		}
 		Builtin::Line => line(location),
 		Builtin::Print => write(Fd::Stdout, arguments),
 		Builtin::Eprint => write(Fd::Stderr, arguments),
